@@ -267,3 +267,25 @@ Definition bsearch (st : bstore) (q : query) : bres :=
     | Some (_, f2) => BOk (zsort (filter (bhas st) f2))
     end
   end.
+
+(* ------------------------------------------------------------------ the ORIGINAL Search (finding F47) *)
+
+(* lookForHeight of the original code: the first "block.height = ..." condition; its operand is
+   type-asserted to int64 (None = panic) *)
+Inductive hlook := HLNone | HLFound (h : Z) | HLPanic.
+Fixpoint look_for_bheight (q : query) : hlook :=
+  match q with
+  | [] => HLNone
+  | c :: r =>
+    if String.eqb (c_key c) BlockHeightKey && match c_op c with OpEq => true | _ => false end
+    then match c_arg c with OInt z => HLFound z | _ => HLPanic end
+    else look_for_bheight r
+  end.
+
+(* the original Search: ANY block.height = H condition short-cuts the whole query to Has(H) *)
+Definition bsearch_original (st : bstore) (q : query) : bres :=
+  match look_for_bheight q with
+  | HLPanic => BPanic
+  | HLFound h => BOk (if bhas st h then [h] else [])
+  | HLNone => bsearch st q
+  end.
